@@ -26,6 +26,8 @@ NEGATIVE = [  # (cfg, invariant that must be violated, what it shows)
     ("Neg_AppImage_twopubs.cfg", "SinglePub", "a second public key file is caught"),
     ("Neg_AppImage_tailtwice.cfg", "HashedLength",
      "hashing an area twice when it is a whole number of 4096-byte blocks is caught once sizes vary"),
+    ("Neg_AppImage_readcap.cfg", "HashInputOk", "a reader that stops at a cap on the text is caught once "
+                                                "files lie above the thresholds"),
     ("Neg_AppImage_nameclash.cfg", "NeverNameClash", "runs name two different images by one file name"),
     ("Neg_AppImage_byname.cfg", "SigVerifies", "a hash table keyed by file name is caught"),
     ("Neg_AppImage_reusepath.cfg", "NeverReusesPath", "-o paths get reused for other images"),
@@ -173,6 +175,10 @@ def run(ctx):
         "65536 bytes); every layout of class small is replayed, of the other classes a seeded sample; other "
         "block sizes a tool might treat specially are only met by the random tier's boundary lengths "
         "(255..65537 around every power of two)",
+        "size of the file as text: for files written one abstract record per area, the model's Env picks "
+        "thresholds 64 KiB / 1 / 2 / 4 MiB x below / above x record length 1, 3, 16, 32, 255 (LF and CRLF "
+        "alternating); quick replays one file per threshold and side (+2 above 1 MiB), thorough one per "
+        "combination; texts beyond 4 MiB + one record are not generated",
         "invocation shapes: image naming (flat / one name in several directories / mixed / blanks and "
         "non-ASCII), path form (relative, absolute, ./x, mixed), working directory (the images' or another), "
         "output path (relative, absolute, another directory) are Env choices of the model, enumerated as "
@@ -201,6 +207,8 @@ def run(ctx):
     extra_jobs = [(cfg, pool.submit(tlc.check, "MC_AppImage", cfg, workers=3)) for cfg in extra_cfgs]
     blind_job = pool.submit(tlc.run, "MC_AppImage", "MC_AppImage_tailtwice_small.cfg", workers=1, heap="1g",
                             java_opts=LIGHT_JVM)
+    blind3_job = pool.submit(tlc.run, "MC_AppImage", "MC_AppImage_readcap_below.cfg", workers=1, heap="1g",
+                             java_opts=LIGHT_JVM)
     blind2_job = pool.submit(tlc.run, "MC_AppImage", "MC_AppImage_byname_flat.cfg", workers=1, heap="2g",
                              java_opts=LIGHT_JVM)
     neg_jobs = [(item, pool.submit(tlc.run, "MC_AppImage", item[0], workers=1, heap="1g", java_opts=LIGHT_JVM))
@@ -231,6 +239,12 @@ def run(ctx):
         negs.append("MC_AppImage_byname_flat.cfg: the by-file-name variant satisfies SigVerifies when every "
                     "image has a name of its own (why the naming of the images is an Env choice)")
         res.checker_cmds.append(rb2.cmd)
+        rb3 = blind3_job.result()
+        if not rb3.ok or rb3.violated:
+            raise core.MachineryError("MC_AppImage_readcap_below.cfg expected to hold: %s %s" % (rb3.violated, rb3.error))
+        negs.append("MC_AppImage_readcap_below.cfg: the capped reader satisfies HashInputOk while every file "
+                    "stays below the thresholds (why the size of the text is an Env choice)")
+        res.checker_cmds.append(rb3.cmd)
         res.coverage["negative_configurations"] = negs
         pool.shutdown()
 
@@ -259,17 +273,33 @@ def run(ctx):
     cov_hash = {s: 0 for s in sizes}        # layouts through compute / signapp hash / signapp message
     cov_sign = {s: 0 for s in sizes}        # images signed by signonetime
     cov_auth = {s: 0 for s in sizes}        # message sequences
+    cov_scale = []                          # [thr, side, rlen, eol, text length, image bytes, order]
     cov_shapes = {}                         # how single files were named for signapp hash / message
     cov_dirs = {"signonetime": {}, "message": {}}
     cov_forms = {"signonetime": {}, "message": {}}
     cov_clash = [0]                         # runs naming two images of different contents by one file name
 
     traces, meta = [], {}
+    jstate = {"accepted": [], "classes": set(), "shown": {}, "held": 0}
+
+    def flush():
+        if traces:
+            judge(ctx, res, traces, meta, jstate)
+        traces.clear()
+        meta.clear()
+        jstate["held"] = 0
 
     def add(t, m):
+        """record one execution; TLC judges them in batches so that the big images do not pile up"""
         t["id"] = len(traces) + 1
         traces.append(t)
         meta[t["id"]] = m
+        lays = [m["lay"]] if m["kind"] == "layout" else m["lays"]
+        for lay in lays:
+            lay._text = None
+            jstate["held"] += 4 * lay.total() + 120 * len(lay.records)
+        if jstate["held"] > 3_000_000_000 or len(traces) >= 30000:
+            flush()
 
     # 3a. as real .hex files through compute_app_hash / signapp hash / signapp message: every layout of
     # the class "small"; of every other class a seeded sample, half of it files in address order (whole
@@ -288,7 +318,26 @@ def run(ctx):
     selected = []
     for s in sizes:
         idx = [i for i, b in enumerate(mlayouts) if b["size"] == s]
-        if s != "small":
+        if s == "scaled":
+            # the size of the file as text: quick = every threshold x side once (record length drawn),
+            # plus two more files above 1 MiB; thorough = every scale (threshold x side x record length) once
+            rng.shuffle(idx)
+            by_scale = {}
+            for i in idx:
+                sc = mlayouts[i]["scale"]
+                by_scale.setdefault((sc["thr"], sc["side"]), {}).setdefault(sc["rlen"], []).append(i)
+            idx = []
+            for key in sorted(by_scale):
+                rl = sorted(by_scale[key])
+                if ctx.quick:
+                    picks = [rng.choice(rl)]
+                    if key == (1048576, "above"):
+                        picks += rng.sample([r for r in rl if r != picks[0]], 2)
+                    idx += [by_scale[key][r][0] for r in picks]
+                else:
+                    for r in rl:
+                        idx += by_scale[key][r][:1]
+        elif s != "small":
             rng.shuffle(idx)
             ordered = [i for i in idx if in_order(mlayouts[i])][:per_class // 2]
             idx = ordered + [i for i in idx if i not in set(ordered)][:per_class - len(ordered)]
@@ -302,6 +351,9 @@ def run(ctx):
         lay = ai.concretise(b, rng)
         reports, hins, pareas = exec_layout(ctx, lay, "m%d" % i, k, cov_shapes)
         cov_hash[b["size"]] += 1
+        if lay.scale:
+            cov_scale.append([lay.scale["thr"], lay.scale["side"], lay.scale["rlen"], lay.scale["eol"],
+                              len(ai.hex_text(lay)), lay.total(), "address" if lay.in_address_order() else "shuffled"])
         add(ai.trace_of_layout(0, lay, reports, hins, b["size"] == "small", pareas),
             {"kind": "layout", "lay": lay, "reports": reports, "src": "model"})
 
@@ -334,7 +386,7 @@ def run(ctx):
         return chosen, lays
 
     # 3b. model sessions (all size classes); the selected layouts get signed (thorough: all of the
-    # bigger classes, a 6 000 sample of the class small)
+    # bigger classes, a 4 000 sample of the class small)
     signed = set()
     def name_of(dirs, i):
         return 1 if dirs == "samename" else (1 if (dirs == "mixed" and i <= 2) else i)
@@ -378,7 +430,7 @@ def run(ctx):
     big_rest = [i for i in rest if mlayouts[i]["size"] != "small"]
     small_rest = [i for i in rest if mlayouts[i]["size"] == "small"]
     rng.shuffle(small_rest)
-    rest = big_rest + small_rest[:ctx.pick(len(small_rest), 6000)]   # thorough: a sample of the small ones
+    rest = big_rest + small_rest[:ctx.pick(len(small_rest), 4000)]   # thorough: a sample of the small ones
     for n in range(0, len(rest), 4):
         chunk = rest[n:n + 4]
         lays = [ai.concretise(mlayouts[j], rng) for j in chunk]
@@ -433,6 +485,15 @@ def run(ctx):
     res.coverage["model_message_sequences_replayed"] = n_auth
     res.coverage["of_which_reuse_a_path_for_another_image"] = n_reuse
     res.coverage["behaviours_replayed"] += n_auth
+    res.coverage["text_sizes"] = {
+        "files": len(cov_scale),
+        "thresholds_x_sides": sorted({"%d %s" % (x[0], x[1]) for x in cov_scale}),
+        "record_lengths": sorted({x[2] for x in cov_scale}),
+        "line_ends": sorted({x[3] for x in cov_scale}), "orders": sorted({x[6] for x in cov_scale}),
+        "largest_text": max([x[4] for x in cov_scale] or [0]),
+        "examples": cov_scale[:12]}
+    if len(res.coverage["text_sizes"]["thresholds_x_sides"]) < 8 or len(res.coverage["text_sizes"]["line_ends"]) < 2:
+        raise core.MachineryError("text-size classes not all exercised: %s" % res.coverage["text_sizes"])
     res.coverage["size_classes"] = {s: {"unit_lengths": ulens[s], "layouts_hashed": cov_hash[s],
                                         "images_signed_by_signonetime": cov_sign[s],
                                         "message_sequences": cov_auth[s]} for s in sizes}
@@ -445,13 +506,13 @@ def run(ctx):
             not cov_clash[0] or len(cov_shapes) < len(LAYOUT_SHAPES):
         raise core.MachineryError("invocation shapes not all exercised: %s" % res.coverage["invocation_shapes"])
     for s in sizes:
-        if not (cov_hash[s] and cov_sign[s] and cov_auth[s]):
+        if not (cov_hash[s] and cov_sign[s] and (cov_auth[s] or s == "scaled")):
             raise core.MachineryError("size class %s not exercised on every path: %s" % (
                 s, res.coverage["size_classes"][s]))
 
     # 4. random tier: 1..8 areas, record lengths 1..255, several zones; one in eight with area lengths
     # on / next to the powers of two from 256 to 64 KiB
-    n_rand = ctx.pick(300, 5000)
+    n_rand = ctx.pick(300, 4000)
     n_boundary = 0
 
     def rand_image(p_small=0.3, p_boundary=0.12):
@@ -517,8 +578,8 @@ def run(ctx):
 
     # 5. TLC judges every recorded execution (and must reject corrupted copies of accepted ones)
     collect_background()
-    accepted = judge(ctx, res, traces, meta)
-    res.coverage["selftest_corrupted_traces_rejected"] = selftest(accepted)
+    flush()
+    res.coverage["selftest_corrupted_traces_rejected"] = selftest(jstate["accepted"])
     return res
 
 
@@ -652,7 +713,7 @@ def relayout(base, rng):
     return ai.Layout(base.areas, records, eol="\n", upper=False, src="random-relayout")
 
 
-def judge(ctx, res, traces, meta):
+def judge(ctx, res, traces, meta, jstate):
     payload = [{k: v for k, v in t.items()} for t in traces]
     saved = os.environ.get("JAVA_TOOL_OPTIONS")
     os.environ["JAVA_TOOL_OPTIONS"] = " ".join(LIGHT_JVM)
@@ -666,8 +727,8 @@ def judge(ctx, res, traces, meta):
             os.environ["JAVA_TOOL_OPTIONS"] = saved
     res.checker_cmds.append("tlc -workers 1 -config Trace_AppImage.cfg TraceAppImage (x%d shards)" % stats["jvms"])
     accepted, drift = 0, 0
-    accepted_traces = []
-    classes = set()
+    accepted_traces = jstate["accepted"]
+    classes = jstate["classes"]
     for t in traces:
         v = verdicts[t["id"]]
         m = meta[t["id"]]
@@ -728,10 +789,11 @@ def judge(ctx, res, traces, meta):
                               ("; " + "; ".join(info.get("notes", []))) if info.get("notes") else ""),
                           {"verdict": v, **replay_data(m)})
     res.add_validation(stats, accepted)
-    res.coverage["model_drift"] = drift
+    res.coverage["model_drift"] = res.coverage.get("model_drift", 0) + drift
     res.coverage["distinct_abstract_classes_hit"] = len(classes)
-    res.coverage["traces_total"] = len(traces)
-    shown = {}
+    res.coverage["traces_total"] = res.coverage.get("traces_total", 0) + len(traces)
+    res.coverage["validation_batches"] = res.coverage.get("validation_batches", 0) + 1
+    shown = jstate["shown"]
     for t in traces:
         m = meta[t["id"]]
         key = (m["kind"], m["src"])
@@ -752,7 +814,6 @@ def judge(ctx, res, traces, meta):
                                   "files": [[f["path"], f["kind"], f["key"], f["by"], f["over"], f["w"]]
                                             for f in r["files"] if f["path"]["k"] != "img"]}
                                  for r in t["runs"]]}, cap=8)
-    return accepted_traces
 
 
 def replay_data(m):
